@@ -51,8 +51,9 @@ WriteCell(s, a, val) == [s.cells EXCEPT ![a + 1] = val]
 \* ---------------------------------------------------------------- rects
 \* Range forms as accepted by  impl From<(H, V)> for Rect  and friends.
 \*   "rg" a..b   "ri" a..=b   "to" ..b   "toi" ..=b   "from" a..   "full" ..
-Lo(form, a)      == IF form \in {"rg", "ri", "from"} THEN a ELSE 0
-Hi(form, b, dim) == CASE form \in {"rg", "to"}   -> b
+\*   "ex" (Excluded(a), Excluded(b)): a pair of explicit bounds whose start is excluded
+Lo(form, a)      == IF form \in {"rg", "ri", "from"} THEN a ELSE IF form = "ex" THEN a + 1 ELSE 0
+Hi(form, b, dim) == CASE form \in {"rg", "to", "ex"}   -> b
                       [] form \in {"ri", "toi"} -> b + 1
                       [] OTHER                  -> dim
 
